@@ -397,7 +397,10 @@ namespace xsimd
                                         kernel::requires_arch<avx2>) noexcept
         {
             // scatter for this one is AVX512F+AVX512VL
-            return _mm256_i32gather_epi32(detail::rebase_gather_pointer<U, sizeof(T)>(reinterpret_cast<const int*>(src)), detail::rebase_gather_index<U>(index), sizeof(T));
+            // (locals: the gather intrinsics are macros in clang and template argument lists contain commas)
+            const int* base = detail::rebase_gather_pointer<U, sizeof(T)>(reinterpret_cast<const int*>(src));
+            const __m256i idx = detail::rebase_gather_index<U>(index);
+            return _mm256_i32gather_epi32(base, idx, sizeof(T));
         }
 
         template <class T, class A, class U, detail::enable_sized_integral_t<T, 8> = 0, detail::enable_sized_integral_t<U, 8> = 0>
@@ -415,7 +418,9 @@ namespace xsimd
                                             kernel::requires_arch<avx2>) noexcept
         {
             // scatter for this one is AVX512F+AVX512VL
-            return _mm256_i32gather_ps(detail::rebase_gather_pointer<U, sizeof(float)>(src), detail::rebase_gather_index<U>(index), sizeof(float));
+            const float* base = detail::rebase_gather_pointer<U, sizeof(float)>(src);
+            const __m256i idx = detail::rebase_gather_index<U>(index);
+            return _mm256_i32gather_ps(base, idx, sizeof(float));
         }
 
         template <class A, class U, detail::enable_sized_integral_t<U, 8> = 0>
